@@ -108,7 +108,7 @@ func replayReaderModel(e *Engine, id string, o *Obligation, dir string) *ReplayR
 	// of binary.spec are given their big-endian meaning in the replay query
 	script = pinBigEndian(script[:cut])
 	cut = len(script)
-	base := filepath.Join(dir, sanitize(o.Name))
+	base := filepath.Join(dir, fileSafe(o.Name))
 	run := func(extraDefs []string, n int) map[int]string {
 		var sb strings.Builder
 		sb.WriteString(script[:cut])
